@@ -70,6 +70,15 @@ func main() {
 func emitBlock(h *harness, out *hx.Out, blk *block, st *stats) {
 	line := blk.resetLine()
 	out.Do(line, func() string { return h.reset(blk) })
+	if blk.real {
+		answers, end := h.runRealBlock(blk)
+		for i, tx := range blk.txs {
+			out.Emit(tx.realLine(), answers[i])
+			st.errs["real:"+strings.SplitN(answers[i], " ", 2)[0]]++
+		}
+		out.Emit("rend", end)
+		return
+	}
 	for i := range blk.txs {
 		tx := blk.txs[i]
 		out.Do(tx.line(), func() string {
